@@ -156,6 +156,15 @@ func VerifC11SaveLoad() {
 			t.repo.ProcessHeader(h.ctx, hd)
 		}
 	}
+	acc := make([]bool, len(h.hdr))
+	for i := range acc {
+		acc[i] = true
+	}
+	// after a Load every best-chain header and every side-branch header within the retained depth
+	// has its true height, status and header (absolute oracle, besides the comparisons)
+	retained := func(i int) bool {
+		return prune == 0 || h.height[i] > h.repo.Height()-prune
+	}
 	for s := 0; s < steps; s++ {
 		op := pick(fmt.Sprintf("op%d", s), ops)
 		switch op {
@@ -164,6 +173,7 @@ func VerifC11SaveLoad() {
 			h.assumeNoTie(h.record(hd, p))
 			e1 := h.repo.ProcessHeader(h.ctx, hd)
 			e2 := t.repo.ProcessHeader(h.ctx, hd)
+			acc = append(acc, e1 == nil)
 			verifAssert(errClass(e1) == errClass(e2), "verdict-differs-after-load")
 		case 1:
 			before := h.observeBest(h.repo, prune)
@@ -179,6 +189,7 @@ func VerifC11SaveLoad() {
 			}
 			h.repo = r
 			verifAssert(h.observeBest(h.repo, prune) == before, "loaded-repository-reports-different-state")
+			h.checkLookups("after-load:", acc, retained)
 			verifReach("reloaded")
 		case 2:
 			// both are cleaned so that the comparison stays about save/load
